@@ -28,10 +28,40 @@ import (
 type vLoadMod struct {
 	root  string
 	names []string
+	// per package: the package doc line ("" = none; default "+gengo:ga") and, per type, a doc line ("" = none)
+	pkgDoc  map[string]string
+	types   []string
+	typeDoc map[string]string // key: pkg + "." + type
+}
+
+func (m *vLoadMod) pkgDocOf(n string) string {
+	if m.pkgDoc == nil {
+		return "+gengo:ga"
+	}
+	return m.pkgDoc[n]
+}
+
+func (m *vLoadMod) typesOf() []string {
+	if m.types == nil {
+		return []string{"T"}
+	}
+	return m.types
 }
 
 func (m *vLoadMod) src(name string) string {
-	return "// +gengo:ga\npackage " + name + "\n\ntype T int\n"
+	s := ""
+	if d := m.pkgDocOf(name); d != "" {
+		s += "// " + d + "\n"
+	}
+	s += "package " + name + "\n"
+	for _, t := range m.typesOf() {
+		s += "\n"
+		if d := m.typeDoc[name+"."+t]; d != "" {
+			s += "// " + d + "\n"
+		}
+		s += "type " + t + " int\n"
+	}
+	return s
 }
 
 func (m *vLoadMod) write() {
@@ -43,35 +73,58 @@ func (m *vLoadMod) write() {
 	}
 }
 
+func vIndexOf(s, sub string, from int) int {
+	for i := from; i+len(sub) <= len(s); i++ {
+		if s[i:i+len(sub)] == sub {
+			return i
+		}
+	}
+	panic("harness: piece not found in scenario source: " + sub)
+}
+
 // build: what go/packages returns for the module as it is on the (model)
 // filesystem now: one package per directory, its Go files parsed - generated
-// files of earlier runs included, as the real loader would see them.
+// files of earlier runs included, as the real loader would see them. The
+// syntax tree follows go/parser's rules: a comment group ending on the line
+// directly above the package clause / a declaration is its Doc.
 func (m *vLoadMod) build(cfg *packages.Config) []*packages.Package {
 	module := &packages.Module{Path: "example.com/m", Dir: m.root, GoVersion: "1.24"}
 	var out []*packages.Package
-	// dependencies first is irrelevant here (no imports between the packages); go list order: sorted
 	for _, n := range m.names {
 		dir := m.root + "/" + n
 		tpkg := types.NewPackage("example.com/m/"+n, n)
 		p := &packages.Package{ID: tpkg.Path(), PkgPath: tpkg.Path(), Name: n, Dir: dir, Module: module,
 			Imports: map[string]*packages.Package{}, Types: tpkg, Fset: cfg.Fset,
 			TypesInfo: &types.Info{Defs: map[*ast.Ident]types.Object{}, Types: map[ast.Expr]types.TypeAndValue{}}}
-		// the hand-written source file
 		text := m.src(n)
 		tf := cfg.Fset.AddFile(dir+"/"+n+".go", -1, len(text))
 		tf.SetLinesForContent([]byte(text))
-		base := token.Pos(tf.Base())
-		doc := &ast.CommentGroup{List: []*ast.Comment{{Slash: base, Text: "// +gengo:ga"}}}
-		pkgPos := base + token.Pos(len("// +gengo:ga\n"))
-		typePos := pkgPos + token.Pos(len("package "+n+"\n\n"))
-		ident := &ast.Ident{NamePos: typePos + 5, Name: "T"}
-		gd := &ast.GenDecl{Tok: token.TYPE, TokPos: typePos, Specs: []ast.Spec{&ast.TypeSpec{Name: ident, Type: &ast.Ident{NamePos: typePos + 7, Name: "int"}}}}
-		file := &ast.File{Doc: doc, Package: pkgPos, Name: &ast.Ident{NamePos: pkgPos + 8, Name: n}, Decls: []ast.Decl{gd},
-			FileStart: base, FileEnd: base + token.Pos(len(text)), Comments: []*ast.CommentGroup{doc}}
-		obj := types.NewTypeName(ident.NamePos, tpkg, "T", nil)
-		types.NewNamed(obj, types.Typ[types.Int], nil)
-		tpkg.Scope().Insert(obj)
-		p.TypesInfo.Defs[ident] = obj
+		base := tf.Base()
+		at := func(off int) token.Pos { return token.Pos(base + off) }
+		file := &ast.File{FileStart: at(0), FileEnd: at(len(text))}
+		if d := m.pkgDocOf(n); d != "" {
+			file.Doc = &ast.CommentGroup{List: []*ast.Comment{{Slash: at(0), Text: "// " + d}}}
+			file.Comments = append(file.Comments, file.Doc)
+		}
+		pkgOff := vIndexOf(text, "package "+n+"\n", 0)
+		file.Package = at(pkgOff)
+		file.Name = &ast.Ident{NamePos: at(pkgOff + 8), Name: n}
+		from := pkgOff
+		for _, t := range m.typesOf() {
+			off := vIndexOf(text, "type "+t+" int\n", from)
+			from = off + 1
+			ident := &ast.Ident{NamePos: at(off + 5), Name: t}
+			gd := &ast.GenDecl{Tok: token.TYPE, TokPos: at(off), Specs: []ast.Spec{&ast.TypeSpec{Name: ident, Type: &ast.Ident{NamePos: at(off + 6 + len(t)), Name: "int"}}}}
+			if d := m.typeDoc[n+"."+t]; d != "" {
+				gd.Doc = &ast.CommentGroup{List: []*ast.Comment{{Slash: at(off - len("// "+d+"\n")), Text: "// " + d}}}
+				file.Comments = append(file.Comments, gd.Doc)
+			}
+			file.Decls = append(file.Decls, gd)
+			obj := types.NewTypeName(ident.NamePos, tpkg, t, nil)
+			types.NewNamed(obj, types.Typ[types.Int], nil)
+			tpkg.Scope().Insert(obj)
+			p.TypesInfo.Defs[ident] = obj
+		}
 		p.Syntax = append(p.Syntax, file)
 		// generated files of earlier runs: the loader sees them as files of the package
 		for _, g := range []string{"ga", "gb"} {
@@ -89,12 +142,14 @@ func (m *vLoadMod) build(cfg *packages.Config) []*packages.Package {
 }
 
 // run: one complete invocation (a new context, i.e. a new Load).
-func (m *vLoadMod) run(force bool) error {
+func (m *vLoadMod) run(force bool) error { return m.runWith(force, nil, vProtoA()) }
+
+func (m *vLoadMod) runWith(force bool, globals map[string][]string, gens ...Generator) error {
 	var patterns []string
 	for _, n := range m.names {
 		patterns = append(patterns, "example.com/m/"+n)
 	}
-	args := &GeneratorArgs{Entrypoint: patterns, OutputFileBaseName: vBase, All: true, Force: force}
+	args := &GeneratorArgs{Entrypoint: patterns, OutputFileBaseName: vBase, All: true, Force: force, Globals: globals}
 	var ex Executor
 	var err error
 	if verifsym.Symbolic() {
@@ -120,7 +175,7 @@ func (m *vLoadMod) run(force bool) error {
 	}
 	c := ex.(*gengoCtx)
 	c.l = logr.Discard()
-	return c.Execute(vBackground(), vProtoA())
+	return c.Execute(vBackground(), gens...)
 }
 
 func (m *vLoadMod) hashes() map[string]string {
@@ -198,5 +253,82 @@ func Verif_C08_LoadExecute() {
 		_, had := before[f]
 		verifsym.Assert(had, "a run on unchanged inputs created a file")
 	}
+	verifsym.Reach("end")
+}
+
+// vTagLine: a doc line for generator ga at one level: 0 none, 1 "+gengo:ga", 2 "+gengo:ga=false", 3 "+gengo:ga:opt=x" (sub-tag only).
+func vTagLine(level int) string {
+	switch level {
+	case 1:
+		return "+gengo:ga"
+	case 2:
+		return "+gengo:ga=false"
+	case 3:
+		return "+gengo:ga:opt=x"
+	}
+	return ""
+}
+
+// Verif_C06_LoadDispatch: the enablement rule end to end through the real
+// loader: package pa with types A and B in a real source file; the tag for ga
+// at global level, in the package doc, and in A's doc comment is each absent /
+// bare / =false / sub-tag only (4 x 4 x 4 combinations by case split); B has no
+// doc. GenerateType(ga, .) is called exactly for the types the rule enables:
+// declaration over package over global; the exact tag decides by itself,
+// otherwise a sub-tag enables.
+func Verif_C06_LoadDispatch() {
+	lg, lp, ld := verifsym.IntRange(0, 3), verifsym.IntRange(0, 3), verifsym.IntRange(0, 3)
+	root := verifsym.FSRoot() + "/m"
+	m := &vLoadMod{root: root, names: []string{"pa"}, types: []string{"A", "B"},
+		pkgDoc: map[string]string{"pa": vTagLine(lp)}, typeDoc: map[string]string{"pa.A": vTagLine(ld)}}
+	m.write()
+	var globals map[string][]string
+	switch lg {
+	case 1:
+		globals = map[string][]string{"gengo:ga": {"true"}}
+	case 2:
+		globals = map[string][]string{"gengo:ga": {"false"}}
+	case 3:
+		globals = map[string][]string{"gengo:ga:opt": {"x"}}
+	}
+	vReset()
+	verifsym.Assert(m.runWith(true, globals, vProtoA()) == nil, "Execute fails")
+	// the rule, level by level (later levels override earlier ones key by key)
+	enabled := func(levels ...int) bool {
+		exact, exactOn, sub := false, false, false
+		for _, l := range levels {
+			switch l {
+			case 1:
+				exact, exactOn = true, true
+			case 2:
+				exact, exactOn = true, false
+			case 3:
+				sub = true
+			}
+		}
+		if exact {
+			return exactOn
+		}
+		return sub
+	}
+	count := func(t string) int {
+		n := 0
+		for _, l := range vState.log {
+			if vHasPrefix(l, "ga:gen:example.com/m/pa."+t+":") {
+				n++
+			}
+		}
+		return n
+	}
+	wantA, wantB := 0, 0
+	if enabled(lg, lp, ld) {
+		wantA = 1
+	}
+	if enabled(lg, lp) {
+		wantB = 1
+	}
+	verifsym.Assert(count("A") == wantA, "GenerateType(ga, A) not called exactly when the effective tags (declaration over package over global) enable ga")
+	verifsym.Assert(count("B") == wantB, "GenerateType(ga, B) not called exactly when the effective tags (package over global) enable ga")
+	verifsym.Observe("log", vState.log)
 	verifsym.Reach("end")
 }
